@@ -944,6 +944,7 @@ static void dump_chrome_task_rstack(struct uftrace_dump_ops *ops, struct uftrace
 			rec_type = UFTRACE_EXIT;
 			break;
 		case EVENT_ID_PERF_SCHED_OUT:
+		case EVENT_ID_PERF_SCHED_OUT_PREEMPT:
 			rec_type = UFTRACE_ENTRY;
 			break;
 		default:
@@ -1664,7 +1665,9 @@ static void dump_replay_event(struct uftrace_dump_ops *ops, struct uftrace_task_
 	struct uftrace_record *rec = task->rstack;
 
 	/* handle schedule events as if functions */
-	if (rec->addr == EVENT_ID_PERF_SCHED_IN || rec->addr == EVENT_ID_PERF_SCHED_OUT) {
+	/* a pre-empted task is scheduled out as well: its sched-in must find the entry it closes */
+	if (rec->addr == EVENT_ID_PERF_SCHED_IN || rec->addr == EVENT_ID_PERF_SCHED_OUT ||
+	    rec->addr == EVENT_ID_PERF_SCHED_OUT_PREEMPT) {
 		call_if_nonull(ops->task_rstack, ops, task, "linux:schedule");
 		return;
 	}
